@@ -1808,7 +1808,7 @@ def seeded_for(pid):
     return out
 
 
-def _run_seeded(m):
+def _run_seeded(m, base_known=None):
     tmp = tempfile.mkdtemp(prefix="allfedsa_seed_")
     try:
         _make_scratch(tmp)
@@ -1823,6 +1823,12 @@ def _run_seeded(m):
         p = subprocess.run([sys.executable, "-m", "allfedsa.cli", m["pid"], "--tier", "quick"], cwd=VERIF, env=env,
                            capture_output=True, text=True)
         out = p.stdout
+        if m["expect"] is None:
+            known = sorted(l for l in out.splitlines() if l.startswith("KNOWN-FINDING"))
+            if p.returncode == 0 and (base_known is None or known == base_known):
+                return m["name"], "silent", ""
+            return m["name"], "noisy", f"rc={p.returncode} " + " | ".join(
+                l.strip() for l in out.splitlines() if "VIOLATION" in l or "ANALYSIS-ERROR" in l or l.startswith("  C"))[:600]
         hit = p.returncode == 1 and any(l.strip().startswith(m["expect"] + " ") for l in out.splitlines()) and "VIOLATION property=" in out
         if hit:
             return m["name"], "killed", ""
@@ -1832,9 +1838,26 @@ def _run_seeded(m):
         shutil.rmtree(tmp, ignore_errors=True)
 
 
+REFACTOR_DIR = os.path.join(VERIF, "refactors")
+
+
+def refactors_for(pid):
+    """behaviour-preserving refactorings written by sub-agents (/verif/refactors/<id>/patch.diff, each verified bit-identical by a
+    differential run): every one must leave every check silent"""
+    out = []
+    if not os.path.isdir(REFACTOR_DIR):
+        return out
+    for d in sorted(os.listdir(REFACTOR_DIR)):
+        pp = os.path.join(REFACTOR_DIR, d, "patch.diff")
+        if os.path.exists(pp):
+            out.append({"pid": pid, "name": "refactor:" + d, "patch": pp, "expect": None})
+    return out
+
+
 def run(pid, jobs=None, only=None):
     ms = [m for m in CORPUS if m["pid"] == pid and (only is None or m["name"] in only)]
     ms += [m for m in seeded_for(pid) if only is None or m["name"] in only]
+    ms += [m for m in refactors_for(pid) if only is None or m["name"] in only]
     res = {"mutants": 0, "killed": 0, "refactors": 0, "silent": 0, "survived": [], "noisy": [], "stale": []}
     if not ms:
         return res
@@ -1847,7 +1870,7 @@ def run(pid, jobs=None, only=None):
         shutil.rmtree(tmpev, ignore_errors=True)
     jobs = jobs or min(16, os.cpu_count() or 4)
     with cf.ThreadPoolExecutor(max_workers=jobs) as ex:
-        futs = [ex.submit(_run_seeded, m) if "patch" in m else ex.submit(_run_one, m, base_known) for m in ms]
+        futs = [ex.submit(_run_seeded, m, base_known) if "patch" in m else ex.submit(_run_one, m, base_known) for m in ms]
         for m, fu in zip(ms, futs):
             name, status, info = fu.result()
             if m["expect"] is None:
